@@ -900,6 +900,8 @@ impl Kademlia {
                 let key = record.key.clone();
                 let message: Bytes = KademliaMessage::put_value(record);
 
+                let mut unreachable = Vec::new();
+
                 for peer in &peers {
                     if let Err(error) = self.open_substream_or_dial(
                         peer.peer,
@@ -914,6 +916,7 @@ impl Kademlia {
                             ?error,
                             "failed to put record to peer",
                         );
+                        unreachable.push(peer.peer);
                     }
                 }
 
@@ -923,6 +926,12 @@ impl Kademlia {
                     peers.into_iter().map(|peer| peer.peer).collect(),
                     quorum,
                 );
+
+                // Peers that could neither be reached over an open connection nor dialed will
+                // never report back: fail them right away so the query can finish.
+                for peer in unreachable {
+                    self.engine.register_send_failure(query, peer);
+                }
 
                 Ok(())
             }
@@ -954,6 +963,8 @@ impl Kademlia {
 
                 let message = KademliaMessage::add_provider(provided_key.clone(), provider);
 
+                let mut unreachable = Vec::new();
+
                 for peer in &peers {
                     if let Err(error) = self.open_substream_or_dial(
                         peer.peer,
@@ -966,7 +977,8 @@ impl Kademlia {
                             ?provided_key,
                             ?error,
                             "failed to add provider record to peer",
-                        )
+                        );
+                        unreachable.push(peer.peer);
                     }
                 }
 
@@ -976,6 +988,11 @@ impl Kademlia {
                     peers.into_iter().map(|peer| peer.peer).collect(),
                     quorum,
                 );
+
+                // See the `PUT_VALUE` counterpart above.
+                for peer in unreachable {
+                    self.engine.register_send_failure(query, peer);
+                }
 
                 Ok(())
             }
